@@ -162,6 +162,10 @@ if ROUND == 11:
               "C05T": "hosvd with a rank request holding zeros ('choose this rank'), as a vector and as a row: the chosen ranks may not be written into the caller's array",
               "C12U": "model value 0.0 (the lower bound of the non-negative models, where only the EPS guard keeps the expressions finite) and data value 0 for the beta loss",
               "C18T": "scale factor 1e-9 in Presentation_Gen, and hosvd problems with the tight tolerance 0.05 in the quick tier (small eigenvalues decide the ranks)"}
+if ROUND == 12:
+    MISSED = {"C08W": "weights of magnitude one with a negative sign added to Kruskal_Gen (<<-1>>, <<1,-1>>, <<-1,-1,1>>)",
+              "C14V": "signed weights for the oblique Kruskal instances of the general-input contract",
+              "C04V": "a slice start counted from the end that reaches before the beginning (clipped to the beginning)"}
 for d in sorted(SRC.glob("C??[CDEFGHIJKLMNOPQRSTUVWXYZ]")):
     rj = d / "result.json"
     if not rj.exists():
